@@ -78,3 +78,366 @@ def diagnose(c, name="hs13diag"):
            "Eval vm_compute in hs13_diff cs.\nEval vm_compute in hs13_model_out cs.\n" % case_term(c))
     ok, out = vlib.coq_run(txt, name)
     return out
+
+
+# ---------------------------------------------------------------- implementation-side monitors
+
+def established(c):
+    return c["cdone"] and c["sdone"] and c["cerr"] == "ok" and c["serr"] == "ok"
+
+
+def nontrivial(c):
+    return bool(c["mask"] and any(a != "pass" for a in c["mask"])) or bool(c.get("silence_to")) or bool(c.get("reverse_to"))
+
+
+def case_key(c):
+    return (c["variant"], tuple(c["mask"] or []), c["interval_ms"], c["no_backoff"], c.get("silence_from"),
+            c.get("silence_until"), c.get("silence_to"), c.get("reverse_to"))
+
+
+def replay_of(c):
+    return {"how": "go test -tags verif -run TestVerifHs13Dbg with VERIF_DBG='variant|mask|interval_ms|nobackoff|silence_from|"
+                   "silence_until_ms|silence_to' (scripted network: action per emitted datagram index pass/drop/dup/hold:k, "
+                   "then reliable); see /verif/.work/hs13/dbg.sh",
+            "VERIF_DBG": "%s|%s|%d|%d|%d|%d|%s" % (c["variant"], ",".join(c["mask"] or []), c["interval_ms"],
+                                                 1 if c["no_backoff"] else 0, c.get("silence_from") or 0,
+                                                 c.get("silence_until") or 0, c.get("silence_to") or ""),
+            "reverse_to": c.get("reverse_to") or "", "case": slim(c)}
+
+
+def slim(c):
+    d = {k: c.get(k) for k in ("variant", "mask", "interval_ms", "no_backoff", "silence_from", "silence_until", "silence_to",
+                               "reverse_to", "cdone", "sdone", "cerr", "serr", "tdone", "tfault", "data_ok", "mtu", "notes")}
+    evs = []
+    for e in c["events"][:160]:
+        x = {k: e[k] for k in ("ev", "idx", "side", "t") if k in e}
+        if e["ev"] == "emit":
+            x["cause"] = e["cause"]
+            x["recs"] = [(r["k"], r["e"], r["ht"], r["ms"], r["fo"], r["fl"]) if r["k"] == "hs" else
+                         (r["k"], r["e"], [tuple(f) for f in (r.get("ackfr") or [])]) for r in (e.get("recs") or [])]
+        evs.append(x)
+    d["events"] = evs
+    return d
+
+
+def monitor_liveness(c):
+    """C02: both sides report success, data flows, within the time two reliable rounds need"""
+    if not established(c):
+        return "handshake did not complete: client=%s server=%s after %d ms" % (
+            c["cerr"] if c["cdone"] else "pending", c["serr"] if c["sdone"] else "pending", c["tdone"])
+    if not c["data_ok"]:
+        return "handshake completed but application data does not flow both ways"
+    start = max(c["tfault"], c.get("silence_until") or 0)
+    if c["tdone"] - start > 2 * 60000 + 1000:
+        return "completion took %d ms after the last fault (bound: 2 rounds of at most 60 s)" % (c["tdone"] - start)
+    if any(r["k"] in ("alert", "other") for e in c["events"] if e["ev"] == "emit" for r in (e.get("recs") or [])):
+        return "an alert or an unreadable record was emitted during an honest handshake"
+    if c.get("notes"):
+        return "harness note: %s" % c["notes"][0]
+    return None
+
+
+def timer_groups(c, side):
+    """virtual times of the timer-caused emission groups of `side`, with the number of datagrams
+    delivered to `side` so far at each"""
+    out, ndel = [], 0
+    for e in c["events"]:
+        if e["ev"] == "deliver" and e["side"] == side:
+            ndel += 1
+        elif e["ev"] == "emit" and e["side"] == side and e["cause"] == "timer":
+            if not out or out[-1][0] != e["t"]:
+                out.append((e["t"], ndel))
+    return out
+
+
+def flight_size(cases):
+    """per variant: records of the largest flight (distinct fragments per side and flight)"""
+    fl = {}
+    for c in cases:
+        d = fl.setdefault(c["variant"], {})
+        for e in c["events"]:
+            if e["ev"] != "emit":
+                continue
+            for r in e.get("recs") or []:
+                if r["k"] != "hs":
+                    continue
+                if e["side"] == "client":
+                    f = "F1" if (r["ht"] == 1 and r["ms"] == 0) else ("F3" if r["ht"] == 1 else "F5")
+                else:
+                    f = "F2" if r["ht"] == 6 else ("FN" if r["ht"] == 4 else "F4")
+                d.setdefault(f, set()).add((r["ms"], r["fo"], r["fl"]))
+    return {v: max([len(s) for s in d.values()] or [1]) for v, d in fl.items()}
+
+
+def monitor_discipline(c, F):
+    """C17 on the implementation trace"""
+    for e in c["events"]:
+        if e["ev"] == "emit" and e["cause"] == "timer" and any(r["k"] == "hs" and r["ht"] == 6 for r in e.get("recs") or []):
+            return "HelloRetryRequest sent by the retransmission timer at %d ms" % e["t"]
+    for side in ("client", "server"):
+        g = timer_groups(c, side)
+        for (t0, d0), (t1, d1), (t2, d2) in zip(g, g[1:], g[2:]):
+            if d0 == d1 == d2 and t0 > 0:
+                g1, g2 = t1 - t0, t2 - t1
+                want = g1 if c["no_backoff"] else min(2 * g1, 60000)
+                if g2 != want:
+                    return "%s retransmission gaps %d ms then %d ms (expected %d) with no input in between" % (side, g1, g2, want)
+        for (t0, d0), (t1, d1) in zip(g, g[1:]):
+            if d0 == d1 and t1 - t0 > 60000:
+                return "%s retransmission interval %d ms above the 60 s cap" % (side, t1 - t0)
+        m = _monitor_backoff_floor(c, side)
+        if m:
+            return m
+        nem = sum(1 for e in c["events"] if e["ev"] == "emit" and e["side"] == side)
+        ndel = sum(1 for e in c["events"] if e["ev"] == "deliver" and e["side"] == side)
+        # the initial flight at time 0 is caused by neither a timer nor a delivery
+        if nem > F + len(g) * F + ndel * (F + 1):
+            return "%s emitted %d datagrams for %d timer expiries and %d received datagrams (flight size %d)" % (
+                side, nem, len(g), ndel, F)
+        # after completion: the server (it has sent its NewSessionTicket) and the client (it has acknowledged the
+        # ticket) never send a handshake flight again; ACKs only in reaction to a delivery
+        done = False
+        for e in c["events"]:
+            if e["ev"] != "emit" or e["side"] != side:
+                continue
+            recs = e.get("recs") or []
+            if done:
+                for r in recs:
+                    if r["k"] == "hs" and r["ht"] != 4:
+                        return "%s sent handshake type %d after completing (at %d ms)" % (side, r["ht"], e["t"])
+                    if r["k"] == "ack" and e["cause"] == "timer":
+                        return "%s sent an ACK on a timer after completing (at %d ms)" % (side, e["t"])
+            if side == "server" and any(r["k"] == "hs" and r["ht"] == 4 for r in recs):
+                done = True
+            if side == "client" and any(r["k"] == "ack" and r["e"] == 3 and any(f[0] >= 0 for f in (r.get("ackfr") or [])) and
+                                        _acks_nst(c, r) for r in recs):
+                done = True
+    return None
+
+
+def _monitor_backoff_floor(c, side):
+    """only NEW data restores the initial interval: after k consecutive timer expiries of `side` with nothing new
+    delivered to it in between (only datagram instances seen before, or handshake records whose content it had already
+    received), the next expiry comes no sooner than min(I*2^k, 60 s) later"""
+    if c["no_backoff"]:
+        return None
+    I = c["interval_ms"]
+    content = {}
+    seen_idx, seen_rec = set(), set()
+    k, tlast = 0, None
+    for e in c["events"]:
+        if e["ev"] == "emit":
+            content[e["idx"]] = e.get("recs") or []
+            if e["side"] != side:
+                continue
+            if e["cause"] == "timer":
+                if e["t"] == 0 or (tlast is not None and e["t"] == tlast):
+                    continue                # the initial flight is not an expiry
+                if tlast is not None and k >= 1 and e["t"] - tlast < min(I * 2 ** k, 60000):
+                    return "%s retransmitted %d ms after its previous timer expiry although %d expiries had passed with nothing " \
+                           "new received (floor %d ms): the interval was restored by stale data" % (
+                               side, e["t"] - tlast, k, min(I * 2 ** k, 60000))
+                k += 1
+                tlast = e["t"]
+            elif any(r["k"] == "hs" and r["ht"] == 4 for r in e.get("recs") or []):
+                k, tlast = 0, None        # the NewSessionTicket starts its own schedule
+        elif e["ev"] == "deliver" and e["side"] == side:
+            if e["idx"] in seen_idx:
+                continue
+            seen_idx.add(e["idx"])
+            new = False
+            for r in content.get(e["idx"], []):
+                if r["k"] == "hs":
+                    key = (r["e"], r["ms"], r["fo"], r["fl"])
+                    if key not in seen_rec:
+                        new = True
+                    seen_rec.add(key)
+                else:
+                    new = True          # an ACK (or anything else) is not a retransmission
+            if new:
+                k, tlast = 0, None
+    return None
+
+
+def _acks_nst(c, r):
+    nst = c.setdefault("_nst", None)
+    if nst is None:
+        nst = set()
+        for e in c["events"]:
+            if e["ev"] == "emit" and e["side"] == "server":
+                for x in e.get("recs") or []:
+                    if x["k"] == "hs" and x["ht"] == 4:
+                        nst.add((x["ms"], x["fo"], x["fl"]))
+        c["_nst"] = nst
+    return any(tuple(f) in nst for f in (r.get("ackfr") or []))
+
+
+def monitor_cookie(c):
+    """C13 (DTLS 1.3) on the implementation trace: before every fragment of the ClientHello that answers the
+    HelloRetryRequest has been delivered, the server emits HelloRetryRequest records only, each time in direct response to
+    a delivered datagram that carries a ClientHello record, never on a timer"""
+    emitted = {}
+    need = None            # fragments of the answering ClientHello still to be delivered to the server
+    have = set()
+    second = 1
+    if not any(r["k"] == "hs" and r["ht"] == 6 for e in c["events"] if e["ev"] == "emit" and e["side"] == "server"
+               for r in (e.get("recs") or [])) and c["variant"].endswith("direct"):
+        second = 0         # no cookie exchange configured: the first ClientHello is the one
+    last_delivered = None
+    for e in c["events"]:
+        if e["ev"] == "emit":
+            emitted[e["idx"]] = e.get("recs") or []
+            if e["side"] != "server":
+                continue
+            complete = need is not None and need <= have
+            if complete:
+                return None
+            for r in e.get("recs") or []:
+                if not (r["k"] == "hs" and r["ht"] == 6 and r["e"] == 0):
+                    return "server emitted %s (epoch %d, type %d) at %d ms before it had received the ClientHello answering its HelloRetryRequest" % (
+                        r["k"], r["e"], r["ht"], e["t"])
+            if e["cause"] == "timer" and (e.get("recs") or []):
+                return "HelloRetryRequest sent by the retransmission timer at %d ms" % e["t"]
+            if e.get("recs") and (last_delivered is None or not any(r["k"] == "hs" and r["ht"] == 1 for r in last_delivered)):
+                return "HelloRetryRequest at %d ms is not a response to a datagram carrying a ClientHello" % e["t"]
+        elif e["ev"] == "deliver" and e["side"] == "server":
+            last_delivered = emitted.get(e["idx"], [])
+            for r in last_delivered:
+                if r["k"] == "hs" and r["ht"] == 1 and r["ms"] == second:
+                    have.add((r["fo"], r["fl"]))
+                    if need is None:
+                        need = set()
+                        off = 0
+                        # the fragments of that message, from any emission of it
+                        allf = sorted({(x["fo"], x["fl"]) for recs in emitted.values() for x in recs
+                                       if x["k"] == "hs" and x["ht"] == 1 and x["ms"] == second})
+                        need = set(allf)
+    return None
+
+
+# ---------------------------------------------------------------- legs
+
+def _prove(chk, prop, found):
+    """build Properties/<prop>.vo + the acceptance functions; returns True when the theorems check"""
+    okg, detail = vlib.regenerate()
+    if not okg:
+        if not found:
+            chk.broken("Gen/GeneratedHs13.v could not be regenerated from /repo", detail)
+        return False
+    bad = vlib.coq_audit()
+    if bad:
+        chk.broken("coq-audit: forbidden construct in development", "\n".join(bad))
+        return False
+    ok, out = vlib.coq_make(["theories/Properties/%s.vo" % prop, RUN_TARGET])
+    if not ok:
+        m = re.search(r'File "([^"]+)", line (\d+)', out)
+        where = ("%s:%s" % (m.group(1), m.group(2))) if m else "?"
+        chk.hs13_proof_error = (prop, where, out)
+        return False
+    ok2, theorems, atext = vlib.coq_assumptions(prop)
+    closed = atext.count("Closed under the global context")
+    axioms = sorted(set(re.findall(r"^([A-Za-z0-9_.']+)\s*:", atext, re.M)))
+    chk.cov.setdefault("hs13_theorems", {})[prop] = {
+        "theorems": theorems, "closed": closed, "axioms": axioms, "ok": ok2}
+    chk.cov["obligations"] = chk.cov.get("obligations", 0) + len(theorems)
+    chk.cov["discharged"] = chk.cov.get("discharged", 0) + (len(theorems) if ok2 and closed >= len(theorems) and not axioms else 0)
+    return ok2 and not axioms
+
+
+def _harness(chk, test, seed_off, what):
+    out = vlib.out_path("hs13")
+    rc, o = vlib.go_test(".", test, {"VERIF_SEED": chk.seed + seed_off, "VERIF_TIER": chk.tier, "VERIF_OUT": out},
+                         tags=TAGS, timeout=3000)
+    cases = vlib.read_jsonl(out)
+    vlib.cleanup(out)
+    found = False
+    if rc != 0:
+        kind = vlib.classify_go_failure(o)
+        if kind == "panic":
+            found = True
+            chk.finding(SITE, {"family": "dtls13", "monitor": "panic"}, "panic during scripted DTLS 1.3 handshakes (%s)" % what,
+                        {"output": o[-4000:]})
+        else:
+            chk.broken("correspondence harness %s no longer runs against /repo (%s)" % (test, kind), o)
+    return cases, found
+
+
+def _leg(chk, prop, leg, test, seed_off, monitor, monitor_name, rule):
+    cases, found = _harness(chk, test, seed_off, leg)
+    F = flight_size(cases)
+    reported = set()
+    for c in cases:
+        m = monitor(c, F.get(c["variant"], 1)) if monitor is monitor_discipline else monitor(c)
+        if m:
+            key = (c["variant"], re.split(r" at \d| gaps|: client=| \d+ ms", m)[0][:80])
+            if key in reported:
+                continue
+            reported.add(key)
+            found = chk.finding(SITE, {"family": "dtls13", "variant": c["variant"], "monitor": key[1]},
+                                "%s [variant %s, mask %s, interval %d ms, backoff %s, silence %s until %s from #%s]" % (
+                                    m, c["variant"], c["mask"], c["interval_ms"], not c["no_backoff"], c.get("silence_to") or "-",
+                                    c.get("silence_until"), c.get("silence_from")), replay_of(c)) or found
+    proved = _prove(chk, prop, found)
+    n_bad = 0
+    if proved or getattr(chk, "hs13_proof_error", None) is None:
+        okm, mo = vlib.coq_make([RUN_TARGET, "theories/Gen/GeneratedHs13.vo"])
+        if okm:
+            bad = accept(chk, leg, cases)
+            n_bad = len(bad or [])
+            for i in (bad or [])[:1]:
+                c = cases[i]
+                m = (monitor(c, F.get(c["variant"], 1)) if monitor is monitor_discipline else monitor(c)) or monitor_liveness(c)
+                chk.finding(SITE, {"family": "dtls13", "variant": c["variant"], "monitor": "model-mismatch"},
+                            "DTLS 1.3 trace not accepted by the Hs/Hs13 model [variant %s, mask %s, interval %d ms, backoff %s]%s" % (
+                                c["variant"], c["mask"], c["interval_ms"], not c["no_backoff"], (": " + m) if m else ""),
+                            dict(replay_of(c), correspondence="Hs.Hs13Run.hs13_ok", model_says=diagnose(c)[-1500:]),
+                            no_input=(m is None and not found))
+    if not proved and not found:
+        err = getattr(chk, "hs13_proof_error", (prop, "?", ""))
+        chk.broken("proof obligation Properties/%s.v no longer checks (%s)" % (prop, err[1]), err[2])
+    nt = [c for c in cases if nontrivial(c)]
+    chk.count(leg, len(cases), [case_key(c) for c in nt],
+              samples=[{"variant": c["variant"], "mask": c["mask"], "interval_ms": c["interval_ms"], "backoff": not c["no_backoff"],
+                        "silence": [c.get("silence_to"), c.get("silence_from"), c.get("silence_until")],
+                        "tdone_ms": c["tdone"], "datagrams": sum(1 for e in c["events"] if e["ev"] == "emit")} for c in nt[-3:]])
+    chk.cov["traces_validated_against_impl"] = chk.cov.get("traces_validated_against_impl", 0) + len(cases)
+    vs = {}
+    for c in cases:
+        vs[c["variant"]] = vs.get(c["variant"], 0) + 1
+    n_timer = sum(len(timer_groups(c, s)) for c in cases for s in ("client", "server"))
+    chk.leg_info(leg, variants=vs, not_accepted_by_model=n_bad, monitor=monitor_name, rule=rule,
+                 emitted_datagrams_predicted=sum(1 for c in cases for e in c["events"] if e["ev"] == "emit"),
+                 timer_expiries_observed=n_timer, max_completion_ms=max([c["tdone"] for c in cases] or [0]),
+                 reached_cap=sum(1 for c in cases for s in ("client", "server")
+                                 if any(b - a == 60000 for (a, _), (b, _) in zip(timer_groups(c, s), timer_groups(c, s)[1:]))),
+                 theorems="Properties/%s.v" % prop,
+                 note="DTLS 1.3 handshake machinery decided by proof on Hs/Hs13.v; every emitted datagram of every trace "
+                      "(records, ACK contents as sets, virtual time, sender) and establishment predicted by the model")
+    return {"cases": len(cases), "mismatches": n_bad, "found": found, "proved": proved}
+
+
+def run_c02(chk):
+    """C02, DTLS 1.3 leg: theorems Properties/C02hs13.v + replay of fault-mask traces + completion monitor.
+    Does not call chk.prove / chk.finish."""
+    return _leg(chk, "C02hs13", "hs13_masks", "^TestVerifHs13Masks$", 1302, monitor_liveness, "completion",
+                "8 DTLS 1.3 variants (HelloRetryRequest for the cookie, HRR that changes the group, no HRR, client auth, "
+                "MTU 300/120); masks = action per emitted datagram (pass/drop/dup/hold:k): every single fault over the first 14 "
+                "datagrams on every variant, every mask over the first 3 (thorough: 5) datagrams on the two base variants, seeded "
+                "random longer masks; every trace replayed through the Coq model. Non-trivial = at least one fault.")
+
+
+def run_c17(chk):
+    """C17, DTLS 1.3 leg: theorems Properties/C17hs13.v + replay of timed traces + discipline monitors."""
+    return _leg(chk, "C17hs13", "hs13_timed", "^TestVerifHs13Timed$", 1317, monitor_discipline, "discipline",
+                "initial interval 10 ms / 250 ms / 1 s / 40 s, backoff on/off; every datagram towards one side or both dropped "
+                "from datagram #k on for up to 300 s (interval law up to the 60 s cap; the other side sees only stale flights: "
+                "emission bound), bursts delivered in reverse order, fault masks under non-default timers; replayed with "
+                "virtual timestamps. Non-trivial = a fault, a silence or a reversal.")
+
+
+def run_c13(chk):
+    """C13, DTLS 1.3 leg: theorems Properties/C13hs13.v + replay of HelloRetryRequest-phase traces + cookie monitor."""
+    return _leg(chk, "C13hs13", "hs13_cookie", "^TestVerifHs13Cookie$", 1313, monitor_cookie, "cookie-exchange",
+                "every mask over the first 3 (thorough: 5) datagrams (ClientHello fragments, HelloRetryRequest, second "
+                "ClientHello) on 7 variants, client cut off for up to 70 s (server sees repeated first ClientHellos only), "
+                "intervals 10 ms / 250 ms / 1 s with and without backoff, reversed bursts, seeded random masks.")
